@@ -120,16 +120,43 @@ def main() -> None:
                           "traceback": traceback.format_exc()[-4000:]}), flush=True)
         sys.exit(2)
     print(json.dumps({"ready": True, "cfg": cfg, "info": info}), flush=True)
-    for line in sys.stdin:
-        line = line.strip()
-        if not line:
-            continue
-        request = json.loads(line)
-        if request.get("fn") == "__exit__":
+    # The zygote itself never touches a request: it forks a handler, which reads one request, forks the
+    # simulated process and relays its result.  So the memory image a simulated process starts from is
+    # a function of (code, hash seed, request) and not of the requests this zygote served before --
+    # behaviour that depends on object addresses (id()-keyed caches) replays in any other zygote.
+    while True:
+        pid = os.fork()
+        if pid == 0:
+            code = 1
+            try:
+                code = _handle_one(mod)
+            finally:
+                os._exit(code)
+        _, status = os.waitpid(pid, 0)
+        if not (os.WIFEXITED(status) and os.WEXITSTATUS(status) == 0):
             break
-        response = _serve(mod, request)
-        sys.stdout.write(json.dumps(response, default=str) + "\n")
-        sys.stdout.flush()
+
+
+def _handle_one(mod) -> int:
+    """Handler process: one request line from fd 0, one response line to fd 1; 7 = stop serving."""
+    buf = b""
+    while not buf.endswith(b"\n"):
+        chunk = os.read(0, 1 << 16)
+        if not chunk:
+            return 7
+        buf += chunk
+    line = buf.strip()
+    if not line:
+        return 0
+    request = json.loads(line)
+    if request.get("fn") == "__exit__":
+        return 7
+    response = _serve(mod, request)
+    view = memoryview((json.dumps(response, default=str) + "\n").encode())
+    while view:
+        n = os.write(1, view)
+        view = view[n:]
+    return 0
 
 
 if __name__ == "__main__":
